@@ -119,6 +119,17 @@ def drive(s, su, seed, scale, stats, notes, miri=False):
                     notes.append(("panic", "%s::deserialize (%s) on %s" % (kind, codec, p_["input"][:200]), {"panic": p_["panic"]}))
                 for x in r.noncanon:
                     notes.append(("noncanon", "%s decoded %s non-canonically" % (kind, x[:200]), {}))
+    # (a') systematic: every prefix of every valid encoding, short extensions, and each group-element / scalar field set to
+    # all-zero / all-0xff / its own bytes reversed (these get past length checks and reach the inner decoders)
+    for kind in proto.KINDS11:
+        v = c1[kind]
+        for L in range(len(v)):
+            look(s.de(kind, v[:L], out="tr"), "decode %s truncated to %d" % (kind, L))
+        for ext in (1, 2, 31, 32, 33, 64):
+            look(s.de(kind, v + bytes(ext), out="tr"), "decode %s extended by %d" % (kind, ext))
+        for name, off, ln, cls in sz.fields(kind):
+            for fill in (bytes(ln), b"\xff" * ln, v[off:off + ln][::-1], b"\x01" + bytes(ln - 1), bytes(ln - 1) + b"\x01"):
+                look(s.de(kind, v[:off] + fill + v[off + ln:], out="tr"), "decode %s with %s := constant" % (kind, name))
     # ---------------------------------------------------------------- (b) adversarial but well-formed messages at every step
     A = {"S": "aS", "cs": "ag.cs", "rq": "ag.rq", "rr": "ag.rr", "up": "ag.up", "file": "ag.file", "cl": "al.cl", "cq": "al.cq", "sl": "al.sl", "cr": "al.cr", "cf": "al.cf"}
     B = {"S": "bS", "cs": "bg.cs", "rq": "bg.rq", "rr": "bg.rr", "up": "bg.up", "file": "bg.file", "cl": "bl.cl", "cq": "bl.cq", "sl": "bl.sl", "cr": "bl.cr", "cf": "bl.cf"}
